@@ -11,6 +11,7 @@ import (
 	"strings"
 	"sync"
 	"sync/atomic"
+	"time"
 
 	aclu "github.com/xuperchain/xupercore/kernel/permission/acl/utils"
 	pb "github.com/xuperchain/xupercore/protos"
@@ -339,6 +340,9 @@ func (b *Box) diagnose(c *Config, l []uint8, impl int, errText string, want int)
 		return o == MustAccept && r != iAccept
 	}
 	min := append([]uint8(nil), l...)
+	if impl == iPanic {
+		return b.panicFinding(c, l, errText)
+	}
 	for changed := true; changed; {
 		changed = false
 		for i := range min {
@@ -408,9 +412,7 @@ func (b *Box) diagnose(c *Config, l []uint8, impl int, errText string, want int)
 			sig += "|with-error"
 		}
 	}
-	if r == iPanic {
-		sig = "acl|panic-during-evaluation|" + rootKind
-	}
+	_ = rootKind
 	var syms []string
 	for _, p := range ps {
 		syms = append(syms, b.U.symURI(p))
@@ -445,6 +447,7 @@ type boxStats struct {
 
 // Run evaluates every (config, list) pair of the box.
 func (b *Box) Run(r *ev.Run) {
+	t0 := time.Now() // progress output only
 	b.enumerate()
 	nl := len(b.lists)
 	// successor table for monotonicity
@@ -703,11 +706,33 @@ func (b *Box) Run(r *ev.Run) {
 	for _, f := range findings {
 		r.Violation(f.sig, f.detail, f.witness)
 	}
-	fmt.Fprintf(os.Stderr, "c11: box %-22s configs=%d lists=%d evaluations=%d disagreements(total so far)=%d\n", b.Name, len(b.Configs), nl, total.evals,
-		atomic.LoadInt64(&disagreements))
+	fmt.Fprintf(os.Stderr, "c11: box %-22s configs=%d lists=%d evaluations=%d disagreements(total so far)=%d shapes=%d %.1fs\n", b.Name, len(b.Configs), nl, total.evals,
+		atomic.LoadInt64(&disagreements), len(shapes), time.Since(t0).Seconds())
 }
 
 var disagreements int64
+
+// panicFinding: a crash is reported as observed (no re-evaluation: Go's random map order can
+// make the same input crash or not, e.g. when a null key set is met before a satisfied one).
+func (b *Box) panicFinding(c *Config, l []uint8, text string) finding {
+	feature := "other"
+	for _, rl := range c.Acct {
+		if rl.NilSet {
+			feature = "rule-lists-a-null-key-set"
+		}
+	}
+	if c.Method != nil && c.Method.NilSet {
+		feature = "rule-lists-a-null-key-set"
+	}
+	us, _ := b.materialise(l)
+	jr := map[string]string{}
+	for id, rl := range c.Acct {
+		jr[b.U.N.list[id]] = rl.JSON(b.U.N)
+	}
+	return finding{sig: "acl|panic-during-evaluation|" + feature,
+		detail: fmt.Sprintf("%s: rules %v, signers %v: the evaluation panicked: %s", b.Name, c.describe(b.U), b.symList(l), text),
+		witness: map[string]interface{}{"box": b.Name, "rules": c.describe(b.U), "rules_json": jr, "signer_uris": us, "panic": text}}
+}
 
 func (b *Box) symList(l []uint8) []string {
 	var out []string
